@@ -188,7 +188,7 @@ var c20ArgRoots = []struct{ op, field string }{
 
 var c20In *c20Inputs
 
-func c20ArgumentsCheck(run *Run, e *c20Env, r *rand.Rand) {
+func c20ArgumentsCheck(run *Run, e *c20Env, r *rand.Rand, tag map[string]any) {
 	if c20In == nil {
 		c20In = c20CollectInputs(e.def)
 	}
@@ -254,13 +254,13 @@ func c20ArgumentsCheck(run *Run, e *c20Env, r *rand.Rand) {
 	d1, raw1, err1 := e.loadVars(literalOp, []byte("{}"))
 	d2, raw2, err2 := e.loadVars(variableOp, vb)
 	if (err1 != nil) != (err2 != nil) {
-		run.Violate(Violation{Kind: "oracle", Clause: "literal_and_variable_arguments_agree", Input: inp, Impl: map[string]any{"literal": raw1, "variable": raw2},
+		run.Violate(Violation{Kind: "oracle", Clause: "literal_and_variable_arguments_agree", Input: c20Tag(inp, tag), Impl: map[string]any{"literal": raw1, "variable": raw2},
 			Detail: fmt.Sprintf("the same argument values as literals: err=%v answer=%s; as variables: err=%v answer=%s", err1, truncate(raw1, 500), err2, truncate(raw2, 500))}, "")
 		return
 	}
 	if err1 != nil {
 		if strings.HasPrefix(err1.Error(), "panic") || strings.HasPrefix(err2.Error(), "panic") {
-			run.Violate(Violation{Kind: "oracle", Clause: "arguments_no_panic", Input: inp, Detail: fmt.Sprintf("literal: %v; variable: %v", err1, err2)}, "")
+			run.Violate(Violation{Kind: "oracle", Clause: "arguments_no_panic", Input: c20Tag(inp, tag), Detail: fmt.Sprintf("literal: %v; variable: %v", err1, err2)}, "")
 			return
 		}
 		run.Feat("arguments:both_fail")
@@ -268,7 +268,7 @@ func c20ArgumentsCheck(run *Run, e *c20Env, r *rand.Rand) {
 		return
 	}
 	if !fedJSONEqual(d1, d2) {
-		run.Violate(Violation{Kind: "oracle", Clause: "literal_and_variable_arguments_agree", Input: inp, Impl: map[string]any{"literal": raw1, "variable": raw2},
+		run.Violate(Violation{Kind: "oracle", Clause: "literal_and_variable_arguments_agree", Input: c20Tag(inp, tag), Impl: map[string]any{"literal": raw1, "variable": raw2},
 			Detail: fmt.Sprintf("the same argument values as literals answer %s, as variables %s", truncate(raw1, 700), truncate(raw2, 700))}, "")
 		return
 	}
